@@ -1,3 +1,151 @@
-import PybtexModel.Model.Basic
+/-
+C12 — brace- and special-character-aware string primitives obey their algebra.
+
+Property theorems only; helper lemmas are in `Lemmas/TeXString.lean`, the model of the code in
+`Model/TeXString.lean`, the reference notions (what the reader has to agree with: `substring`,
+`depthAfter`, `balanced`, `maxDepth`, `endsInSpecial`/`specialsClosed`, `depthSat`,
+`textLength`) in `Spec/TeXString.lean`.
+-/
+import PybtexModel.Lemmas.TeXString
+
 namespace Pybtex.Props
+open Pybtex Spec
+
+/-- the example string `ab{\'e x}{c d}e` used by the non-vacuity instances -/
+private abbrev ex1 : Str := "ab{\\'e x}{c d}e".toList
+
+/-! ### substring -/
+
+/-- `bibtex_substring` is BibTeX's `substring$`: 1-based, end-relative and extending to the left
+for a negative start, clamped to the string, empty for start 0 or length ≤ 0 — for **all**
+integer arguments. -/
+theorem C12_substring_spec (s : Str) (start len : Int) :
+    bibtexSubstring s start len = Spec.substring s start len :=
+  bibtexSubstring_eq_spec s start len
+
+/-! ### scanning -/
+
+/-- a brace-balanced string has no unclosed special character -/
+theorem C12_balanced_specials_closed (s : Str) (h : balanced s = true) : specialsClosed s = true :=
+  specialsClosed_of_balanced s h
+
+/-- Scanning is lossless: concatenating the tokens gives the string back whenever every special
+character is closed (in particular on balanced input); in general the only difference is one
+`}` appended after an unclosed special character. -/
+theorem C12_scan_lossless (s : Str) (toks : List Tok) (h : scan s = some toks) :
+    (specialsClosed s = true → (toks.map Prod.fst).flatten = s) ∧
+    (balanced s = true → (toks.map Prod.fst).flatten = s) ∧
+    ((toks.map Prod.fst).flatten = s ∨ (toks.map Prod.fst).flatten = s ++ ['}']) := by
+  have h1 := scanM_text _ _ _ h
+  simp only [tokText, ScanMode.acc, ScanMode.sp, ScanMode.depth, List.nil_append] at h1
+  have hc : specialsClosed s = true → (toks.map Prod.fst).flatten = s := by
+    intro hs
+    simp only [specialsClosed, Bool.not_eq_true'] at hs
+    rw [h1, hs]; simp [closeIf]
+  refine ⟨hc, fun hb => hc (specialsClosed_of_balanced s hb), ?_⟩
+  rw [h1]
+  cases endsInSpecial false 0 s <;> simp [closeIf]
+
+theorem C12_scan_lossless_nonvacuous :
+    ∃ toks, scan ex1 = some toks ∧ balanced ex1 = true ∧ toks.length = 11 := by decide
+
+/-- without the hypothesis the statement is false: an unclosed special character gets a closing
+brace that is not in the input -/
+theorem C12_scan_lossless_neg :
+    ¬ ∀ (s : Str) (toks : List Tok), scan s = some toks → (toks.map Prod.fst).flatten = s := by
+  intro h
+  have := h ['{', '\\'] _ rfl
+  revert this; decide
+
+/-- On input whose brace depth never goes negative and whose special characters are closed (in
+particular on balanced input) every token's level is the running brace depth of the text
+consumed up to and including that token; on balanced input the last level is 0. -/
+theorem C12_scan_levels (s : Str) (toks : List Tok) (h : scan s = some toks)
+    (hd : (depthAfter 0 s).isSome = true) (hs : specialsClosed s = true) :
+    (∀ pre t post, toks = pre ++ t :: post →
+        depthAfter 0 ((pre ++ [t]).map Prod.fst).flatten = some t.2) ∧
+    (balanced s = true → ∀ t, toks.getLast? = some t → t.2 = 0) := by
+  obtain ⟨e, he⟩ := Option.isSome_iff_exists.1 hd
+  have hsp : endsInSpecial false 0 s = false := by
+    simpa [specialsClosed] using hs
+  have hl : LevelChain 0 toks := scanM_levels _ _ _ h e he hsp
+  refine ⟨hl.prefix, ?_⟩
+  intro hb t ht
+  obtain ⟨pre, rfl⟩ : ∃ pre, toks = pre ++ [t] := by
+    refine ⟨toks.dropLast, ?_⟩
+    have hne : toks ≠ [] := by intro h0; simp [h0] at ht
+    rw [List.getLast?_eq_some_getLast hne] at ht
+    cases ht
+    exact (List.dropLast_concat_getLast hne).symm
+  have h1 := hl.prefix pre t [] rfl
+  have h2 := (C12_scan_lossless s _ h).1 hs
+  simp only [tokText] at h1
+  rw [h2] at h1
+  simp only [balanced, decide_eq_true_eq] at hb
+  rw [hb] at h1
+  exact (Option.some.inj h1).symm
+
+theorem C12_scan_levels_nonvacuous :
+    (scan ex1).isSome = true ∧ (depthAfter 0 ex1).isSome = true ∧ specialsClosed ex1 = true ∧
+      balanced ex1 = true := by decide
+
+/-- The scanner fails (`BibTeXError('too many nested braces')`) exactly when the nesting depth
+exceeds the limit. -/
+theorem C12_scan_total (s : Str) : (scan s).isSome = true ↔ maxDepth 0 s ≤ maxLevel :=
+  scanM_isSome_iff (.norm 0) s (by simp [maxLevel])
+
+/-! ### text length -/
+
+/-- `bibtex_len` is the reference text length (braces not counted, a special character counted
+once, every other character once) whenever the nesting guard does not fire, and the error
+otherwise. -/
+theorem C12_len_spec (s : Str) :
+    bibtexLen s = if maxDepth 0 s ≤ maxLevel then some (textLength false 0 s) else none := by
+  rw [bibtexLen_eq]
+  split
+  · rename_i hm
+    obtain ⟨toks, ht⟩ := Option.isSome_iff_exists.1 ((C12_scan_total s).2 hm)
+    rw [ht]
+    exact congrArg some (scanM_count _ _ _ ht)
+  · rename_i hm
+    have : scan s = none := by
+      cases h : scan s with
+      | none => rfl
+      | some t => exact absurd ((C12_scan_total s).1 (by simp [h])) hm
+    rw [this]; rfl
+
+/-- the text length of a string without braces is its length -/
+theorem C12_len_plain (s : Str) (hs : ∀ c ∈ s, c ≠ '{' ∧ c ≠ '}') : bibtexLen s = some s.length := by
+  rw [bibtexLen_eq, scan, scanM_plain s 0 hs]
+  exact congrArg some (tokCount_plain s 0 hs)
+
+theorem C12_len_plain_nonvacuous :
+    (∀ c ∈ "de la Vallee".toList, c ≠ '{' ∧ c ≠ '}') ∧ bibtexLen "de la Vallee".toList = some 12 :=
+  ⟨by simp, by decide⟩
+
+/-- braces themselves are never counted: without a backslash (hence without special characters)
+the text length is the number of characters that are not braces -/
+theorem C12_len_braces (s : Str) (hs : ∀ c ∈ s, c ≠ '\\') (hm : maxDepth 0 s ≤ maxLevel) :
+    bibtexLen s = some (s.filter fun c => c ≠ '{' ∧ c ≠ '}').length := by
+  rw [C12_len_spec, if_pos hm, textLength_no_backslash s hs]
+
+theorem C12_len_braces_nonvacuous :
+    (∀ c ∈ "a{b{c}}}d{".toList, c ≠ '\\') ∧ maxDepth 0 "a{b{c}}}d{".toList ≤ maxLevel ∧
+      bibtexLen "a{b{c}}}d{".toList = some 4 := ⟨by simp, by decide, by decide⟩
+
+/-- a closed special character `{\…}` at depth 0 counts exactly once, whatever its body -/
+theorem C12_len_special (body r : Str) (hb : balanced body = true) (hm : maxDepth 1 body ≤ maxLevel) :
+    bibtexLen (['{', '\\'] ++ body ++ ['}'] ++ r) = (bibtexLen r).map (1 + ·) := by
+  rw [bibtexLen_eq, bibtexLen_eq, scan_special body r hb hm]
+  cases scan r with
+  | none => rfl
+  | some t =>
+    simp only [Option.map_some, Option.some.injEq]
+    have : isBraceTok ('\\' :: body) = false := isBraceTok_of_head rfl
+    simp [tokCount_cons, isBraceTok_open, isBraceTok_close, this]
+
+theorem C12_len_special_nonvacuous :
+    balanced "'e{x} y".toList = true ∧ maxDepth 1 "'e{x} y".toList ≤ maxLevel ∧
+      bibtexLen (['{', '\\'] ++ "'e{x} y".toList ++ ['}'] ++ "{c d}e".toList) = some 5 := by decide
+
 end Pybtex.Props
